@@ -107,6 +107,18 @@ struct Case {
     corpus: bool,
 }
 
+/// The recorder's own look at a text (token counts, pieces for mutation and minimisation, skeletons). The tokenizer is
+/// part of what is being checked: if it panics on this text the recorder sees no tokens instead of dying itself.
+fn tokens_of(text: &str) -> Vec<sylt_tokenizer::PlacedToken> {
+    vharness::project::quiet_panics();
+    std::panic::catch_unwind(|| string_to_tokens(0, text)).unwrap_or_default()
+}
+
+fn tokenizer_panics(text: &str) -> bool {
+    vharness::project::quiet_panics();
+    std::panic::catch_unwind(|| string_to_tokens(0, text)).is_err()
+}
+
 /// SyltPipeline!FamText: every file under a header line, the main file first, the others by name
 fn fam_text(c: &Case) -> String {
     let mut names: Vec<&String> = c.files.keys().collect();
@@ -375,7 +387,7 @@ fn worker(universe: &str, cases: &str, from: usize, to: usize, out: &str) {
             content.push('\u{2}');
         }
         head["h"] = json!(hex(fnv(&format!("{}|{}|{}|{}", c.main, c.no_std, c.corpus, content))));
-        head["ntok"] = json!(c.files.get(&c.main).map(|t| string_to_tokens(0, t).len().saturating_sub(1)).unwrap_or(0));
+        head["ntok"] = json!(c.files.get(&c.main).map(|t| tokens_of(t).len().saturating_sub(1)).unwrap_or(0));
         let rec = finish_record(head, evs, &pmsg, t0.elapsed().as_millis());
         let mut line = serde_json::to_string(&rec).unwrap();
         line.push('\n');
@@ -598,7 +610,7 @@ fn pieces(text: &str) -> Option<Pieces> {
     }
     let mut v = Vec::new();
     let mut prev_end = 0usize; // char index
-    for pt in string_to_tokens(0, text) {
+    for pt in tokens_of(text) {
         if matches!(pt.token, Token::EOF) {
             continue;
         }
@@ -635,7 +647,7 @@ fn join(ps: &[Piece]) -> String {
 fn nesting(text: &str) -> usize {
     let mut d: i64 = 0;
     let mut m: i64 = 0;
-    for pt in string_to_tokens(0, text) {
+    for pt in tokens_of(text) {
         match pt.token {
             Token::LeftParen | Token::LeftBracket | Token::LeftBrace | Token::Do | Token::Enum => d += 1,
             Token::RightParen | Token::RightBracket | Token::RightBrace | Token::End => d = (d - 1).max(0),
@@ -1373,7 +1385,7 @@ fn canonicalise(m: &mut Minimiser, c: &Case) -> Case {
     let mut best = c.clone();
     let mut idents: Vec<String> = Vec::new();
     for (_, text) in &c.files {
-        for pt in string_to_tokens(0, text) {
+        for pt in tokens_of(text) {
             if let Token::Identifier(s) = pt.token {
                 if !idents.contains(&s) {
                     idents.push(s);
@@ -1447,9 +1459,18 @@ fn skeleton(c: &Case) -> String {
     names.sort_by_key(|n| (**n != c.main, (*n).clone()));
     for name in names {
         let mut toks: Vec<String> = Vec::new();
+        if tokenizer_panics(&c.files[name]) {
+            // no tokens to name: the characters themselves, non-ASCII ones by their UTF-8 length
+            let spelled: String = c.files[name]
+                .chars()
+                .map(|ch| if ch == '\n' { " ; ".to_string() } else if ch.is_ascii() { ch.to_string() } else { format!("<u{}>", ch.len_utf8()) })
+                .collect();
+            parts.push(format!("<tokenizer panics> {}", spelled.trim_end()));
+            continue;
+        }
         let listed: Vec<(Token, String)> = match pieces(&c.files[name]) {
             Some(ps) => ps.v.into_iter().map(|p| (p.tok, p.text)).collect(),
-            None => string_to_tokens(0, &c.files[name]).into_iter().map(|pt| { let d = format!("{:?}", pt.token); (pt.token, d) }).collect(),
+            None => tokens_of(&c.files[name]).into_iter().map(|pt| { let d = format!("{:?}", pt.token); (pt.token, d) }).collect(),
         };
         for (tok, spelled) in listed.iter() {
             let t = match tok {
@@ -1541,7 +1562,7 @@ fn minimise(case_path: &str) {
             }
         }
         for name in &names {
-            let has_err = best.files.get(name).map(|t| string_to_tokens(0, t).iter().any(|p| matches!(p.token, Token::Error)));
+            let has_err = best.files.get(name).map(|t| tokenizer_panics(t) || tokens_of(t).iter().any(|p| matches!(p.token, Token::Error)));
             if has_err == Some(true) {
                 best = ddmin_chars(&mut m, &best, name);
             }
